@@ -31,6 +31,8 @@ pub const MARKERLIKE: &[&str] = &[
     "old mode 100644", "<<<<<<< HEAD", "=======", ">>>>>>> other", "Submodule x", "{\"type\":1}",
     "# comment", "// -- note", "* bullet", "similarity index 90%", "new file mode 100644",
     "Only in x: y", "--- a", "+++ b", "Subproject commit abc", "\u{301}x y", "\u{fe0f} z", "\u{200d}w", "\u{308}", "Subproject commit 0123456789012345678901234567890123456789-dirty x",
+    // (an empty list item / the mail signature separator: as a removed line it reads `-- `)
+    "- ", "-- ", "+ ",
 ];
 
 pub fn ident(t: &mut Tape) -> String {
